@@ -10,7 +10,7 @@
 (* only checks that the whole trace was consumed.                          *)
 (*   TRACE=<file> tlc -workers 1 -config TraceQueue.cfg TraceQueue.tla     *)
 (***************************************************************************)
-EXTENDS Ops, IterProto, Json, IOUtils
+EXTENDS Ops, IterProto, Cost, Json, IOUtils
 
 Rec == ndJsonDeserialize(IOEnv.TRACE)
 NoDrift == "NODRIFT" \in DOMAIN IOEnv
@@ -207,7 +207,10 @@ StepOp ==
          ordered == IF e.op \in Rebuilds \/ (e.op = "iter_mut" /\ ~e.forget) THEN TRUE
                     ELSE IF e.op = "iter_mut" /\ e.forget THEN FALSE ELSE ord[q]
          sf == IF e.hs = 1 THEN SnapFails(e.snap, e.kind, j.n, ordered, IF e.op = "convert" THEN Empty ELSE con[q]) ELSE {}
-         tags == IF e.panic = 1 THEN j.f \cup (sf \cap {"wf"}) ELSE Relax(j.f, q) \cup sf
+         \* comparison count of this call against Cost!Bound for the size it worked on (C05)
+         nmax == IF e.hs = 1 /\ e.snap.size > con[q].size THEN e.snap.size ELSE con[q].size
+         cf == IF e.panic = 0 /\ e.hs = 1 /\ ~Within(e.kind, e.op, nmax, e.cmps) THEN {"cost"} ELSE {}
+         tags == IF e.panic = 1 THEN j.f \cup (sf \cap {"wf"}) ELSE Relax(j.f, q) \cup sf \cup cf
      IN /\ Report(tags, e.kind)
         /\ (IF e.panic = 0 THEN Drift(ConOp(con[q], e.kind)) ELSE TRUE)
         /\ Adopt(q, tags, j.n)
